@@ -94,8 +94,9 @@ class TextParser(Native):
         self.pos += n
 
     def parse_string(self, name, value):
+        # as ParserText.parse_string: exactly len(value) characters, compared as they are (case matters), the expected text is stored
         vb = value.encode(self.encoding)
-        if self.data[self.pos:self.pos + len(vb)].lower() != vb.lower():
+        if self.data[self.pos:self.pos + len(vb)] != vb:
             raise InvalidValue(name)
-        self.values[name] = self._text(self.data[self.pos:self.pos + len(vb)])
+        self.values[name] = value
         self.pos += len(vb)
